@@ -441,3 +441,38 @@ example :
     omega
 
 end Gwcs.Units
+
+namespace Gwcs.Units
+
+/-- on a unit-carrying WCS `_sanitize_pixel_inputs` leaves pixel quantities as they are -/
+theorem sanitize_keeps_qtys : ∀ (vals : List Rat) (us pixU : List U), vals.length = us.length → us.length = pixU.length →
+    sanitizePixel true pixU (qtys vals us) = .ok (qtys vals us) := by
+  intro vals us pixU h1 h2
+  simp only [sanitizePixel, ↓reduceIte]
+  show Except.ok _ = _
+  congr 1
+  induction vals generalizing us pixU with
+  | nil => simp [qtys]
+  | cons v vs ih =>
+    match us, pixU, h1, h2 with
+    | u :: us', p :: ps, h1, h2 =>
+      have := ih us' ps (by simpa using h1) (by simpa using h2)
+      simp only [qtys, List.zip_cons_cons, List.map_cons] at this ⊢
+      rw [this]
+
+/-- **pixel quantities in any convertible unit** (unit-carrying transform): the answer is the one for the converted numbers given in
+the input frame's own unit - converted, never taken at face value. (For the unit-free twin any unit other than the frame's is rejected:
+`wrong_pixel_unit_rejected`.) -/
+theorem pixel_quantity_converted (w : W) (hq : w.fwd.usesQ = true) {us : List U} (h : Conv us w.pixU) (hpu : Conv w.pixU w.fwd.inU)
+    (nz : NonZero w.pixU) (vals : List Rat) (hl : vals.length = us.length) :
+    w.pixelToWorld (qtys vals us) = w.pixelToWorld (qtys (scaleBy us w.pixU vals) w.pixU) := by
+  have hlen := h.length
+  have hl2 : (scaleBy us w.pixU vals).length = w.pixU.length := by
+    rw [scaleBy_length us w.pixU vals hl hlen, hl, hlen]
+  simp only [W.pixelToWorld, hq, sanitize_keeps_qtys vals us w.pixU hl hlen, sanitize_keeps_qtys _ w.pixU w.pixU hl2 rfl]
+  show (do let p ← (Except.ok (qtys vals us) : Except Err _); w.callWithUnits p) = (do let p ← (Except.ok _ : Except Err _); w.callWithUnits p)
+  simp only [bind, Except.bind, W.callWithUnits]
+  rw [Tr.eval_qtys w.fwd hq (h.trans hpu) vals hl, Tr.eval_qtys w.fwd hq hpu _ hl2,
+    scaleBy_trans hlen hpu.length nz vals]
+
+end Gwcs.Units
